@@ -193,7 +193,7 @@ def history(dc, sc, res, rng, params, label):
     ref = RefDjango(params['KEY_PREFIX'], params['VERSION'], params['TIMEOUT'])
     # keys and versions are namespaced by how they print: 1, True, 1.0 and '1' are four keys (and == to each other)
     keys = ['k1', 'k2', 'n1', 'n2', 'a b', 'ü', 1, True, 1.0, '1', 0, False]
-    versions = [None, None, None, 1, 2, 3, 1, 2, True, 1.0]
+    versions = [None, None, None, 1, 2, 3, 1, 2, True, 1.0, 0, 0]           # 0 is a version like any other (and falsy)
     hist = []
     pcell = (params['TIMEOUT'], params['KEY_PREFIX'], params['VERSION'], params['SHARDS'])
 
@@ -269,7 +269,7 @@ def history(dc, sc, res, rng, params, label):
                 got, exp = call(lambda: dj.get_or_set(k, lambda: val, **tmo_kw(t), **vkw)), ref.get_or_set(k, lambda: val, t, ver)
             elif op in ('incr_version', 'decr_version'):
                 base = params['VERSION'] if ver is None else ver
-                if op == 'decr_version' and base <= 1:
+                if op == 'decr_version' and base <= 0:
                     continue
                 got, exp = call(lambda: getattr(dj, op)(k, **vkw)), getattr(ref, op)(k, 1, ver)
                 if exp is not ValueError:
